@@ -27,6 +27,9 @@ R16.6 the event-limit block of Filter.update stores nothing on the Filter
       instance that update() reads, and the draw is not skipped depending on
       instance state: the limited selection is drawn from the current
       eligible events on every update (shape of the block: C03 R3.5).
+      Who may write: within dclab/ the 'limit events' key is stored only by
+      the configuration code (config.py); no dataset code overwrites it or
+      the whole [filtering] section.
 """
 from __future__ import annotations
 
@@ -1637,6 +1640,89 @@ def r166(ctx, repo):
            label="limit draw unconditional")
 
 
+HIER = "dclab/rtdc_dataset/fmt_hierarchy/base.py"
+CONF = "dclab/rtdc_dataset/config.py"
+
+
+def r166_writers(ctx, repo):
+    """who may write the event limit: the `limit events` key of a dataset's
+    configuration is set by the configuration code (defaults, user input)
+    only – no dataset code (hierarchy update, apply_filter paths) stores it
+    or overwrites the whole [filtering] section"""
+    sites, section = [], []
+    for rel in repo.files("dclab/"):
+        src = repo.src(rel)
+        if "limit events" not in src and "filtering" not in src:
+            continue
+        tree = repo.tree(rel)
+        for n in ast.walk(tree):
+            tg = []
+            if isinstance(n, ast.Assign):
+                tg = n.targets
+            elif isinstance(n, (ast.AugAssign, ast.AnnAssign)):
+                tg = [n.target]
+            elif isinstance(n, ast.Delete):
+                tg = n.targets
+            for t in tg:
+                if isinstance(t, ast.Subscript) and isinstance(
+                        t.slice, ast.Constant):
+                    if t.slice.value == "limit events":
+                        sites.append((rel, n))
+                    elif t.slice.value == "filtering" and not isinstance(
+                            n, ast.Delete):
+                        section.append((rel, n))
+                elif isinstance(t, ast.Subscript) and isinstance(
+                        t.value, ast.Subscript) and isinstance(
+                        t.value.slice, ast.Constant) \
+                        and t.value.slice.value == "filtering" \
+                        and not isinstance(n, ast.Delete):
+                    section.append((rel, n))   # [filtering][<variable key>]
+            if isinstance(n, ast.Call) and isinstance(
+                    n.func, ast.Attribute) and n.func.attr in (
+                    "update", "setdefault", "pop", "clear"):
+                recv = n.func.value
+                on_filtering = isinstance(recv, ast.Subscript) and isinstance(
+                    recv.slice, ast.Constant) and recv.slice.value == \
+                    "filtering"
+                keyed = any(isinstance(a, ast.Constant)
+                            and a.value == "limit events" for a in n.args) \
+                    or any(isinstance(a, ast.Dict) and any(
+                        isinstance(k, ast.Constant)
+                        and k.value == "limit events" for k in a.keys)
+                        for a in n.args) or any(
+                        kw.arg == "limit events" for kw in n.keywords)
+                if keyed and n.func.attr != "get":
+                    sites.append((rel, n))
+                elif on_filtering and n.func.attr in ("update", "clear"):
+                    section.append((rel, n))
+    outside = []
+    for rel, n in sites:
+        st = n
+        while not isinstance(st, ast.stmt):
+            st = st.parent
+        if rel != CONF:
+            outside.append((rel, st))
+    ctx.stat("R16.6 writers of 'limit events' in config.py",
+             len(sites) - len(outside))
+    ctx.ob("R16.6", not outside,
+           "the event limit is written by the configuration code only "
+           "(defaults / user input)" if not outside else
+           f"`{short(outside[0][1], 50)}` ({outside[0][0]}) overwrites the "
+           "dataset's own [filtering] 'limit events': the limit the user "
+           "set on this dataset is replaced (e.g. a hierarchy child "
+           "silently follows its parent) and the number of events returned "
+           "no longer matches the request",
+           node=outside[0][1] if outside else None,
+           key="dclab::[filtering] limit events::written by config code only")
+    bad = [(rel, n) for rel, n in section if rel != CONF]
+    ctx.ob("R16.6", not bad,
+           "no dataset code replaces the whole [filtering] section" if not
+           bad else f"`{short(bad[0][1], 50)}` ({bad[0][0]}) replaces the "
+           "[filtering] section including 'limit events'",
+           node=bad[0][1] if bad else None,
+           key="dclab::[filtering] section::not replaced outside config.py")
+
+
 def run(ctx):
     repo = ctx.repo
     ctx.rule("R16.1", "every random draw follows a reset of the state to a "
@@ -1657,13 +1743,15 @@ def run(ctx):
     ctx.rule("R16.6", "the event-limit block of Filter.update keeps no "
              "state on the instance that a later update reads; the draw does "
              "not depend on instance state; the limit is the last narrowing "
-             "step; the pool is a fresh selection", minimum=4)
+             "step; the pool is a fresh selection; only configuration code "
+             "writes the limit", minimum=6)
     r161(ctx, repo)
     r162(ctx, repo)
     r163(ctx, repo)
     r164(ctx, repo)
     r165(ctx, repo)
     r166(ctx, repo)
+    r166_writers(ctx, repo)
 
 
 MUTANTS = [
@@ -1812,6 +1900,21 @@ MUTANTS = [
       ("                sub = arr_all[arr_all]\n",
        "                sub = self._limit_buffer[:np.sum(arr_all)]\n")],
      "R16.6"),
+    ("hierarchy child follows the parent's event limit (seeded C16_12)",
+     HIER,
+     ("            self.hparent.filter.all)\n        # calculation\n",
+      "            self.hparent.filter.all)\n"
+      "        plimit = self.hparent.config[\"filtering\"][\"limit events\"]"
+      "\n        if plimit != getattr(self, \"_hparent_limit\", plimit):\n"
+      "            self.config[\"filtering\"][\"limit events\"] = plimit\n"
+      "        self._hparent_limit = plimit\n        # calculation\n"),
+     "R16.6"),
+    ("hierarchy child copies the parent's filtering section", HIER,
+     ("            self.hparent.filter.all)\n        # calculation\n",
+      "            self.hparent.filter.all)\n"
+      "        self.config[\"filtering\"].update(\n"
+      "            self.hparent.config[\"filtering\"])\n"
+      "        # calculation\n"), "R16.6"),
     ("scatter: y scaled with the x scale", CORE,
      ("        ys = RTDCBase._apply_scale(y, yscale, yax)\n",
       "        ys = RTDCBase._apply_scale(y, xscale, yax)\n", 0), "R16.5"),
